@@ -77,6 +77,8 @@ def run(tier, seed):
         if b"{{" in corp[nm] or b"mmd header" in corp[nm].lower() or b"mmd footer" in corp[nm].lower():
             continue
         dpool["c_" + nm.replace(" ", "_")] = corp[nm]
+    # sources whose rendering is empty (every entry point still has to agree, trailing newline included)
+    dpool.update({"empty": b"", "blank": b"\n\n", "defonly": b"[a]: http://x.y/\n\n[^f]: unused note\n", "metaonly": b"Base Header Level: 2\n\n"})
     fmts = ["html", "latex", "beamer", "memoir", "opml", "fodt", "odt", "epub", "bundlezip", "itmz"]
     exts = EXTSETS[:3] if tier == "quick" else EXTSETS
     wd = scratch("c06")
@@ -84,10 +86,12 @@ def run(tier, seed):
         cases = [(d, f, x) for d in dpool for f in fmts for x in exts]
         if tier == "quick":
             # every (format, extension set) with every document for plain formats; packaged formats on a rotating subset of documents
-            cases = [c for i, c in enumerate(cases) if c[1] in PLAIN or (hash((c[0], c[1])) % 3 == 0) or c[0] in ("images", "notes")]
+            cases = [c for i, c in enumerate(cases) if c[1] in PLAIN or (sum(map(ord, c[0] + c[1])) % 3 == 0) or c[0] in ("images", "notes")]
         segs = []
         for (d, f, (xn, x, flags)) in cases:
             s = ["seg\tc06", "wantout\t%d" % (1 if f in ("epub", "odt", "bundlezip", "itmz") else 0), line("src", d, sx(dpool[d]))]
+            # one engine object used for several conversions in a row (convert, convert_to_data, convert again)
+            s += [line("e_new", 0, d, x, 0), line("e_conv", 0, docs.FMT[f]), line("e_data", 0, docs.FMT[f]), line("e_conv", 0, docs.FMT[f]), line("e_free", 0)]
             for fam in FAMS:
                 if fam.endswith("_file"):
                     s.append(line("conv", fam, d, docs.FMT[f], x, 0, "-", os.path.join(wd, "f_%d_%s" % (len(segs), fam))))
@@ -101,6 +105,7 @@ def run(tier, seed):
                 problems.append(("crash", (d, f, xn), r)); continue
             trace.append(dict(e="reset"))
             for ev in r["events"]:
+                if ev.get("e") == "eng": trace.append(dict(e="eng", op=ev["op"], src=ev.get("src", ""))); continue
                 if ev.get("e") != "conv": continue
                 fam = ev["fam"]
                 grp = "" if f in PLAIN else ("|conv" if fam in c05.CONVFAM else "|data")
